@@ -288,15 +288,24 @@ def run(ctx, chk):
         from ..symeval import SymEval, Hooks, Panic as SPanic
         import re as _re
         t = _re.sub(r"'\w+\s*", "", tr[tr.index("<") + 1:tr.rindex(">")]).replace(" ", "")
-        try:
-            r_ = SymEval(Hooks(), "From<%s>::from" % t).run(fns[0], {arg: ("param", arg)})
-        except (Anchor, SPanic) as ex:
-            r_ = ("not analysable", str(ex))
-        v = r_[1].split("::")[-1] if isinstance(r_, tuple) and r_ and r_[0] == "enum" else None
-        payload_ok = v is not None and r_[2] == [("param", arg)]
+        # the payload handed in: an unknown value; for strings also concrete ones (empty, with a NUL inside, non-ASCII), which must arrive unchanged
+        payloads = [("param", arg)] + ([("str", ""), ("str", "a\0b"), ("str", "h\u00e9llo\0")] if t in ("&str", "String") else [])
+        v, payload_ok, why_ = None, True, ""
+        for pl in payloads:
+            try:
+                r_ = SymEval(Hooks(), "From<%s>::from" % t).run(fns[0], {arg: pl})
+            except (Anchor, SPanic) as ex:
+                if pl == ("param", arg) and len(payloads) > 1:
+                    continue        # written with string operations the unknown payload cannot go through: the concrete strings decide
+                r_ = ("not analysable", str(ex))
+            v = r_[1].split("::")[-1] if isinstance(r_, tuple) and r_ and r_[0] == "enum" else None
+            if v is None or r_[2] != [pl]:
+                payload_ok = False
+                why_ = " (on the payload %r it yields %s)" % (pl[1] if pl[0] == "str" else "<unknown>", str(r_)[:160])
+                break
         tt = {"&str": "String", "String": "String", "u32": "u32", "u64": "u64"}.get(t, t)
         want = first_of.get(tt) or first_of.get("spirv::" + tt.split("::")[-1])
-        chk.check(R4, payload_ok and v is not None and v == want, "From<%s>" % t, "builds Operand::%s, expected Operand::%s" % (v, want), W,
+        chk.check(R4, payload_ok and v is not None and v == want, "From<%s>" % t, "builds Operand::%s, expected Operand::%s with the payload unchanged%s" % (v, want, why_), W,
                   sample={"T": t, "variant": v})
     chk.floor(R4, "From impls", nfrom, 60)
     nun = 0
